@@ -162,7 +162,14 @@ pub fn case(ctx: &Ctx, shard: usize, index: u64, rep: &mut Report) {
     let mut cfg = gen_cfg(&mut rng, flavour, w, h);
     cfg.pei = 0;
     // ---- history ----
-    let hlen = rng.below(4) as usize;
+    // usually 0-3 pictures before the failing input; now and then several hundred (16x16, cheap)
+    let long_history = sorenson && rng.chance(1, 400);
+    let hlen = if long_history { 300 + rng.below(300) as usize } else { rng.below(4) as usize };
+    if long_history {
+        cfg.w = 16;
+        cfg.h = 16;
+        rep.count("long_histories");
+    }
     let mut hist: Vec<Vec<u8>> = vec![];
     for i in 0..hlen {
         cfg.tr = cfg.tr.wrapping_add(1);
@@ -583,7 +590,7 @@ pub fn run(ctx: &Ctx) -> (Report, String) {
     if ctx.is_main() {
         let m = ctx.scale_pct;
         rep.require("continuation_steps_compared", if ctx.tier == Tier::Thorough { 1_500_000 } else { 80_000 } * m / 100);
-        for k in ["depth=header", "depth=truncation", "depth=macroblock-header", "depth=block-data", "depth=prediction", "shared_reader_position_checks", "split:retried-ok", "split_pictures", "shared_reader_position_checks_before_another_picture", "shared_reader_before_picture:standard:prediction", "shared_reader_before_picture:sorenson:prediction", "prediction_failures_ending_early"] {
+        for k in ["depth=header", "depth=truncation", "depth=macroblock-header", "depth=block-data", "depth=prediction", "shared_reader_position_checks", "split:retried-ok", "split_pictures", "shared_reader_position_checks_before_another_picture", "shared_reader_before_picture:standard:prediction", "shared_reader_before_picture:sorenson:prediction", "prediction_failures_ending_early", "long_histories"] {
             rep.require(k, 100 * m / 100);
         }
     }
